@@ -434,7 +434,7 @@ def final():
 ACTIONS = {
   "create+weak dense": lambda: laplace.single_layer(space("dp0"), space("p1"), space("p1")).weak_form(),
   "create+weak fmm": lambda: laplace.single_layer(space("dp0"), space("p1"), space("p1"), assembler="fmm").weak_form() @ np.ones(space("dp0").global_dof_count),
-  "strong form": lambda: laplace.single_layer(space("dp0"), space("dp0"), space("dp0")).strong_form(),
+  "strong form": lambda: (laplace.single_layer(space("dp0"), space("dp0"), space("dp0")).strong_form(), laplace.single_layer(space("dp0"), space("p1"), space("p1")).strong_form()),
   "set quadrature 2/2": lambda: (setattr(api.GLOBAL_PARAMETERS.quadrature, "regular", 2), setattr(api.GLOBAL_PARAMETERS.quadrature, "singular", 2)),
   "set quadrature 1/1": lambda: (setattr(api.GLOBAL_PARAMETERS.quadrature, "regular", 1), setattr(api.GLOBAL_PARAMETERS.quadrature, "singular", 1)),
   "set quadrature 6/3": lambda: (setattr(api.GLOBAL_PARAMETERS.quadrature, "regular", 6), setattr(api.GLOBAL_PARAMETERS.quadrature, "singular", 3)),
